@@ -3,6 +3,7 @@
 #
 # SPDX-License-Identifier: Apache-2.0
 import linecache
+import tokenize
 
 from bandit.core import constants
 
@@ -177,7 +178,11 @@ class Issue:
         lmin = max(1, self.lineno - max_lines // 2)
         lmax = lmin + len(self.linerange) + max_lines - 1
 
+        encoding = "utf-8"
         if self.fname == "<stdin>":
+            # the piped-in source may declare another encoding (PEP 263)
+            self.fdata.seek(0)
+            encoding, _ = tokenize.detect_encoding(self.fdata.readline)
             self.fdata.seek(0)
             for line_num in range(1, lmin):
                 self.fdata.readline()
@@ -190,7 +195,7 @@ class Issue:
                 text = linecache.getline(self.fname, line)
 
             if isinstance(text, bytes):
-                text = text.decode("utf-8")
+                text = text.decode(encoding)
 
             if not len(text):
                 break
